@@ -64,20 +64,20 @@ func init() {
 	addMutants(
 		Mutant{Property: "C01", Name: "take-loses-the-excess-of-a-part", File: fund, Nth: 1,
 			Old:    "\t\t\tremainder.Parts = append(remainder.Parts, FundingPart{\n\t\t\t\tAccount: f.Parts[i].Account,\n\t\t\t\tAmount:  rem,\n\t\t\t})\n",
-			New:    "\t\t\t_ = rem\n", Expect: "R01g:Funding.Take:taking-loop"},
+			New:    "\t\t\t_ = rem\n", Expect: "R01g:Funding.Take:each-iteration"},
 		Mutant{Property: "C01", Name: "take-does-not-count-what-it-took", File: fund, Nth: 1,
-			Old: "\t\tremainingToWithdraw = remainingToWithdraw.Sub(amtToWithdraw)\n", New: "\t\tremainingToWithdraw = remainingToWithdraw.Sub(Zero)\n", Expect: "R01g:Funding.Take:taking-loop"},
+			Old: "\t\tremainingToWithdraw = remainingToWithdraw.Sub(amtToWithdraw)\n", New: "\t\tremainingToWithdraw = remainingToWithdraw.Sub(Zero)\n", Expect: "R01g:Funding.Take:each-iteration"},
 		Mutant{Property: "C01", Name: "take-attributes-parts-to-the-first-account", File: fund, Nth: 1,
-			Old: "\t\tresult.Parts = append(result.Parts, FundingPart{\n\t\t\tAccount: f.Parts[i].Account,\n\t\t\tAmount:  amtToWithdraw,\n\t\t})\n", New: "\t\tresult.Parts = append(result.Parts, FundingPart{\n\t\t\tAccount: f.Parts[0].Account,\n\t\t\tAmount:  amtToWithdraw,\n\t\t})\n", Expect: "R01g:Funding.Take:taking-loop"},
+			Old: "\t\tresult.Parts = append(result.Parts, FundingPart{\n\t\t\tAccount: f.Parts[i].Account,\n\t\t\tAmount:  amtToWithdraw,\n\t\t})\n", New: "\t\tresult.Parts = append(result.Parts, FundingPart{\n\t\t\tAccount: f.Parts[0].Account,\n\t\t\tAmount:  amtToWithdraw,\n\t\t})\n", Expect: "R01g:Funding.Take:each-iteration"},
 		Mutant{Property: "C01", Name: "take-accepts-a-short-funding", File: fund,
 			Old: "\tif !remainingToWithdraw.Eq(Zero) {\n", New: "\tif remainingToWithdraw.Ltz() {\n", Expect: "R01g:Funding.Take:success-only"},
 		Mutant{Property: "C01", Name: "take-takes-the-whole-part-when-it-exceeds", File: fund, Nth: 1,
-			Old: "\t\t\tamtToWithdraw = remainingToWithdraw\n", New: "", Expect: "R01g:Funding.Take:taking-loop"},
+			Old: "\t\t\tamtToWithdraw = remainingToWithdraw\n", New: "", Expect: "R01g:Funding.Take:each-iteration"},
 		Mutant{Property: "C01", Name: "take-drain-skips-a-part", File: fund, Nth: 1,
-			Old: "\t\t\tAmount:  f.Parts[i].Amount,\n\t\t})\n\t\ti++\n", New: "\t\t\tAmount:  f.Parts[i].Amount,\n\t\t})\n\t\ti += 2\n", Expect: "R01g:Funding.Take:draining"},
+			Old: "\t\t\tAmount:  f.Parts[i].Amount,\n\t\t})\n\t\ti++\n", New: "\t\t\tAmount:  f.Parts[i].Amount,\n\t\t})\n\t\ti += 2\n", Expect: "R01g:Funding.Take:"},
 		Mutant{Property: "C01", Name: "takemax-puts-the-excess-in-the-result", File: fund, Nth: 2,
 			Old:    "\t\t\tremainder.Parts = append(remainder.Parts, FundingPart{\n\t\t\t\tAccount: f.Parts[i].Account,\n\t\t\t\tAmount:  rem,\n\t\t\t})\n",
-			New:    "\t\t\tresult.Parts = append(result.Parts, FundingPart{\n\t\t\t\tAccount: f.Parts[i].Account,\n\t\t\t\tAmount:  rem,\n\t\t\t})\n", Expect: "R01g:Funding.TakeMax:taking-loop"},
+			New:    "\t\t\tresult.Parts = append(result.Parts, FundingPart{\n\t\t\t\tAccount: f.Parts[i].Account,\n\t\t\t\tAmount:  rem,\n\t\t\t})\n", Expect: "R01g:Funding.TakeMax:each-iteration"},
 		Mutant{Property: "C01", Name: "take-gte-comparison", File: fund, Nth: 1,
 			Old: "\t\tif amtToWithdraw.Gt(remainingToWithdraw) {\n", New: "\t\tif amtToWithdraw.Gte(remainingToWithdraw) {\n", Expect: "none", Benign: true},
 	)
